@@ -327,7 +327,7 @@ def cases(quick=True):
         for shape in shapes(n):
             k = nleaves(shape)
             # all value assignments for small k, a covering subset (each leaf each value, others fixed) beyond
-            if len(base_vals) ** k <= (256 if quick else 2500):
+            if len(base_vals) ** k <= (9 if quick else 2500):
                 assigns = itertools.product(base_vals, repeat=k)
             else:
                 assigns = []
